@@ -21,6 +21,7 @@ import (
 	"math/rand"
 	"os"
 	"path/filepath"
+	"runtime/debug"
 	"sort"
 	"strconv"
 	"strings"
@@ -441,11 +442,13 @@ func (shim) Log(...interface{})                {}
 func (shim) Logf(string, ...interface{})       {}
 
 type snapFile struct {
-	Stamp int64
-	Size  int64
-	Ids   []int64
-	Other int // decoded entries that are not user messages (the per-file header)
-	Name  string
+	Stamp     int64
+	Size      int64
+	Ids       []int64
+	Other     int // decoded entries that are not user messages (the per-file header)
+	Name      string
+	Raw       string `json:",omitempty"` // %q of the content, only when the size is not header + entries
+	DecodeErr string `json:",omitempty"` // the decoder stopped with this error (entries before it are kept)
 }
 
 type histOp struct {
@@ -518,6 +521,7 @@ type runner struct {
 	counter int64 // messages logged on the secondary logger so far
 	dir     string
 	planted map[string]bool
+	gids    map[int64]bool // goroutine ids seen in the decoded files
 }
 
 func (r *runner) log(msg string) {
@@ -537,7 +541,12 @@ func (r *runner) fullMsg(msg string) string {
 	return strconv.FormatInt(r.counter+1, 10) + " " + msg
 }
 
-func (r *runner) snapshot() []snapFile {
+func (r *runner) snapshot() []snapFile { return r.snapshotLens(nil, 0) }
+
+// snapshotLens is snapshot; with the lengths of the logged entries it also
+// records the raw content of any file whose size is not what its decoded
+// content explains (diagnostic only).
+func (r *runner) snapshotLens(lens map[int64]int64, h int64) []snapFile {
 	log.Flush()
 	fis, err := r.vl.ListFiles()
 	if err != nil {
@@ -558,13 +567,27 @@ func (r *runner) snapshot() []snapFile {
 			}
 			es, k, txt := decodeAll(b)
 			if k != 0 {
-				panic("decoding a log file failed: " + txt)
+				sf.DecodeErr = txt
 			}
 			for _, e := range es {
+				r.gids[e.Goroutine] = true
 				if id, ok := idOf(e.Message); ok {
 					sf.Ids = append(sf.Ids, id)
 				} else {
 					sf.Other++
+				}
+			}
+			if lens != nil {
+				want := h
+				for _, id := range sf.Ids {
+					want += lens[id]
+				}
+				if want != sf.Size {
+					raw := string(b)
+					if len(raw) > 6000 {
+						raw = raw[:6000]
+					}
+					sf.Raw = fmt.Sprintf("%q", raw)
 				}
 			}
 		}
@@ -576,9 +599,27 @@ func (r *runner) snapshot() []snapFile {
 
 type calib struct{ overhead, h int64 }
 
+// The header widths are constant only if the goroutine id the logger prints
+// is. With the vendored petermattis/goid (2018) on a current Go runtime,
+// goid.Get() does not read the goroutine id but a status word that changes
+// while the garbage collector scans the stack (2 -> 4098). The harness
+// therefore switches the collector off while it drives the loggers and, as a
+// safety net, discards and redoes any history in whose files more than one
+// goroutine id appears (counted in the summary).
+func (r *runner) glitch() bool { return len(r.gids) > 1 }
+
+func calibrate(kind string, seq *int) calib {
+	for i := 0; i < 20; i++ {
+		if c, ok := calibrateOnce(kind, seq); ok {
+			return c
+		}
+	}
+	panic("calibration: goroutine id never stable")
+}
+
 // calibrate measures, on a throw-away directory, the number of bytes a user
 // message costs beyond its own text and the size of the per-file header.
-func calibrate(kind string, seq *int) calib {
+func calibrateOnce(kind string, seq *int) (calib, bool) {
 	sc := log.ScopeWithoutShowLogs(shim{})
 	defer sc.Close(shim{})
 	old := atomic.LoadInt64(&log.LogFileMaxSize)
@@ -600,14 +641,17 @@ func calibrate(kind string, seq *int) calib {
 	// size2 - size1 = overhead + len(full2)
 	ov := s2[0].Size - s1[0].Size - int64(len(full2))
 	h := s1[0].Size - ov - int64(len(full))
+	if r.glitch() {
+		return calib{}, false
+	}
 	if ov <= 0 || h <= 0 {
 		panic(fmt.Sprintf("calibration failed: overhead %d header %d", ov, h))
 	}
-	return calib{ov, h}
+	return calib{ov, h}, true
 }
 
 func newRunner(kind string, seq *int) *runner {
-	r := &runner{kind: kind, planted: map[string]bool{}}
+	r := &runner{kind: kind, planted: map[string]bool{}, gids: map[int64]bool{}}
 	r.dir = log.VerifLogDir()
 	if kind == "main" {
 		r.vl = log.VerifMainLogger()
@@ -627,7 +671,7 @@ func (r *runner) close() {
 	}
 }
 
-func runHist(rng *rand.Rand, kind string, cal calib, seq *int, gcOnly bool) histCase {
+func runHist(rng *rand.Rand, kind string, cal calib, seq *int, gcOnly bool) (histCase, bool) {
 	sc := log.ScopeWithoutShowLogs(shim{})
 	defer sc.Close(shim{})
 	oldMax := atomic.LoadInt64(&log.LogFileMaxSize)
@@ -679,8 +723,9 @@ func runHist(rng *rand.Rand, kind string, cal calib, seq *int, gcOnly bool) hist
 	}
 
 	nextID := int64(1)
+	lens := map[int64]int64{}
 	doSnap := func() []snapFile {
-		s := r.snapshot()
+		s := r.snapshotLens(lens, cal.h)
 		hc.Ops = append(hc.Ops, histOp{Op: "snap"})
 		hc.Snaps = append(hc.Snaps, s)
 		return s
@@ -710,7 +755,7 @@ func runHist(rng *rand.Rand, kind string, cal calib, seq *int, gcOnly bool) hist
 		atomic.StoreInt64(&log.LogFilesCombinedMaxSize, b)
 		r.vl.GCNow()
 		hc.Ops = append(hc.Ops, histOp{Op: "gc", Arg: b})
-		hc.Snaps = append(hc.Snaps, r.snapshot())
+		hc.Snaps = append(hc.Snaps, r.snapshotLens(lens, cal.h))
 	}
 	doLog := func() {
 		// choose the size of the entry relative to what is left in the file
@@ -744,6 +789,7 @@ func runHist(rng *rand.Rand, kind string, cal calib, seq *int, gcOnly bool) hist
 		msg := mkMsg(id, pad)
 		length := cal.overhead + int64(len(r.fullMsg(msg)))
 		r.log(msg)
+		lens[id] = length
 		hc.Ops = append(hc.Ops, histOp{Op: "log", Id: id, Len: length})
 	}
 
@@ -785,7 +831,7 @@ func runHist(rng *rand.Rand, kind string, cal calib, seq *int, gcOnly bool) hist
 			}
 		}
 	}
-	return hc
+	return hc, !r.glitch()
 }
 
 func zs(l []int64) string {
@@ -948,24 +994,49 @@ func main() {
 	}
 
 	// ---- rotation / GC histories on real loggers
-	seq := 0
-	calMain := calibrate("main", &seq)
-	calSec := calibrate("secondary", &seq)
 	var hist []histCase
-	for i := 0; i < nHist+nGC; i++ {
-		kind, cal := "main", calMain
-		if i%2 == 1 {
-			kind, cal = "secondary", calSec
+	discarded := 0
+	var calMain, calSec calib
+	histErr := ""
+	func() {
+		defer func() {
+			if r := recover(); r != nil {
+				// the loggers could not be driven at all (e.g. calibration impossible):
+				// the codec cases are still written; the check reports this separately
+				histErr = fmt.Sprint(r)
+				hist = nil
+			}
+		}()
+		seq := 0
+		oldGC := debug.SetGCPercent(-1) // see the comment on glitch()
+		defer debug.SetGCPercent(oldGC)
+		calMain = calibrate("main", &seq)
+		calSec = calibrate("secondary", &seq)
+		for i := 0; i < nHist+nGC; i++ {
+			kind, cal := "main", calMain
+			if i%2 == 1 {
+				kind, cal = "secondary", calSec
+			}
+			for try := 0; ; try++ {
+				h, ok := runHist(rng, kind, cal, &seq, i >= nHist)
+				if ok {
+					hist = append(hist, h)
+					break
+				}
+				discarded++
+				if try > 20 {
+					panic("goroutine id never stable")
+				}
+			}
 		}
-		hist = append(hist, runHist(rng, kind, cal, &seq, i >= nHist))
-	}
-	// the calibration must still hold at the end (constant header widths)
-	if c := calibrate("main", &seq); c != calMain {
-		panic(fmt.Sprintf("calibration drifted: %v then %v", calMain, c))
-	}
-	if c := calibrate("secondary", &seq); c != calSec {
-		panic(fmt.Sprintf("calibration drifted: %v then %v", calSec, c))
-	}
+		// the calibration must still hold at the end (constant header widths)
+		if c := calibrate("main", &seq); c != calMain {
+			panic(fmt.Sprintf("calibration drifted: %v then %v", calMain, c))
+		}
+		if c := calibrate("secondary", &seq); c != calSec {
+			panic(fmt.Sprintf("calibration drifted: %v then %v", calSec, c))
+		}
+	}()
 
 	// ---- output
 	var sb strings.Builder
@@ -1062,12 +1133,15 @@ func main() {
 			histNontrivial++
 		}
 	}
-	samples := []interface{}{codec[0], codec[1+rng.Intn(len(codec)-1)], raw[rng.Intn(len(raw))], probe[rng.Intn(len(probe))], hist[rng.Intn(nHist)], hist[nHist+rng.Intn(nGC)]}
+	samples := []interface{}{codec[0], codec[1+rng.Intn(len(codec)-1)], raw[rng.Intn(len(raw))], probe[rng.Intn(len(probe))]}
+	if len(hist) == nHist+nGC {
+		samples = append(samples, hist[rng.Intn(nHist)], hist[nHist+rng.Intn(nGC)])
+	}
 	vh.WriteJSON(*out, "summary.json", map[string]interface{}{
 		"codec": len(codec), "codec_entries": entries, "codec_classes": classCount,
 		"raw": len(raw), "raw_kinds": rawKinds,
 		"probe": len(probe), "probe_kinds": probeKinds, "probe_roundtrip_failures": probeFail,
-		"hist": len(hist), "hist_log_ops": logs, "hist_gc_ops": gcs, "hist_files_at_end": rotations,
+		"hist": len(hist), "hist_error": histErr, "hist_discarded_goid_glitch": discarded, "hist_log_ops": logs, "hist_gc_ops": gcs, "hist_files_at_end": rotations,
 		"calibration":         map[string]interface{}{"main": []int64{calMain.overhead, calMain.h}, "secondary": []int64{calSec.overhead, calSec.h}},
 		"distinct_nontrivial": nontrivial + histNontrivial,
 		"samples":             samples,
